@@ -1,4 +1,5 @@
 from construct.core import ConstructError
+from struct import error as StructError
 from io import IOBase
 from io import SEEK_END
 from io import SEEK_SET
@@ -45,7 +46,7 @@ class AkaiImageParser(Image):
                     _elem_parent=self,
                     _elem_routines=self._routines
                 )  
-            except (InvalidPartition, ConstructError) as e:
+            except (InvalidPartition, ConstructError, StructError) as e:
                 break
             partitions.append(partition)
             partition_cnt += 1
